@@ -173,8 +173,16 @@ def genValue (id relid size : Nat) : Gen ToastValue := do
 
 /-! ### relations -/
 
+/-- header states that are LIVE by the tuple's own hint bits (`Spec.liveBits`: XMIN_COMMITTED set, and not XMAX_COMMITTED
+without XMAX_INVALID) -/
 def liveMasks : List Nat := [0x0902, 0x0102, 0x0B02, 0x0302, 0x2902]
-def deadMasks : List Nat := [0x0502, 0x0002, 0x0202, 0x0A02, 0x0402, 0x0602]
+/-- header states that are NOT live by the hint bits: deleted (0x0502), nothing hinted (0x0002), aborted inserter
+(0x0202, 0x0A02), 0x0402 / 0x0602 — and 0x0802 (XMAX_INVALID only): the state of every freshly inserted tuple until
+something sets XMIN_COMMITTED.  PostgreSQL reads TOAST chunks under a visibility rule that consults the commit log and
+never sets hint bits, so chunks of a committed value can stay in state 0x0802 until VACUUM; the tool, which has no
+commit log (C09: "classified by their own hint bits only"), does not see them — this is the liveness notion of the Spec
+(`Entry.live`), stated in the doc comments of Props/C08. -/
+def deadMasks : List Nat := [0x0502, 0x0002, 0x0202, 0x0A02, 0x0402, 0x0602, 0x0802]
 
 /-- greedily pack entries into pages, now and then closing a page early -/
 def packPages (es : List Entry) : Gen Layout := do
